@@ -124,6 +124,15 @@ func vhMakeWriter(rec *vhRec) (w http.ResponseWriter, canFlush, flushCanFail boo
 func vhC16Messages() []*Message {
 	m1 := &Message{}
 	m1.AppendData("a")
+	if n := verifParam("LONG", 0); n > 0 {
+		// one single line of n bytes (buffer sizes of a batching writer are typical thresholds)
+		b := make([]byte, n)
+		for i := range b {
+			b[i] = 'a' + byte(i%26)
+		}
+		m1 = &Message{ID: ID("9")}
+		m1.AppendData(string(b))
+	}
 	m2 := &Message{ID: ID("7")}
 	m2.AppendData("b\nc")
 	m3 := &Message{} // nothing to write
@@ -345,6 +354,16 @@ func vhC16Serve() {
 	}
 	_, isSession := sub.Client.(*Session)
 	verifAssert(isSession, "C16/Serve/client-is-the-session")
+	// a second request on the same Server without a Last-Event-ID header: nothing of the first
+	// request's ID (or of anything else it carried) is subscribed with
+	if prov.subErr == nil {
+		recB := &vhRec{h: http.Header{}, failAt: -1}
+		srv.ServeHTTP(vhWFlusher{vhWPlain{recB}}, &http.Request{Header: http.Header{}})
+		verifAssert(len(prov.subs) == 2, "C16/Serve/second-request-subscribed")
+		if len(prov.subs) == 2 {
+			verifAssert(!prov.subs[1].LastEventID.IsSet(), "C16/Serve/second-request-without-header-has-no-last-event-id")
+		}
+	}
 	// a later request on another server that chooses no topics is still subscribed to the
 	// default topic, whatever this session's OnSession chose
 	rec2 := &vhRec{h: http.Header{}, failAt: -1}
